@@ -120,6 +120,11 @@ func readBad(p string) ([]Bad, error) {
 // Validate lets TLC judge the recorded schedules: ConcTrace (GoChan semantics
 // + properties: verdicts) and ConcConform (combinator modules: drift).
 func Validate(c *core.Ctx, traces []string, name string) (*ValStats, error) {
+	return ValidateOpt(c, traces, name, true)
+}
+
+// ValidateOpt: conform=false skips ConcConform (schedules of a variant the modules do not describe).
+func ValidateOpt(c *core.Ctx, traces []string, name string, conform bool) (*ValStats, error) {
 	start := time.Now()
 	chunks, runs, lines, err := splitTrace(traces, filepath.Join(c.Work, "val-"+name), 4000)
 	if err != nil {
@@ -132,7 +137,10 @@ func Validate(c *core.Ctx, traces []string, name string) (*ValStats, error) {
 	}
 	var tasks []task
 	for _, ch := range chunks {
-		tasks = append(tasks, task{ch, "ConcTrace"}, task{ch, "ConcConform"})
+		tasks = append(tasks, task{ch, "ConcTrace"})
+		if conform {
+			tasks = append(tasks, task{ch, "ConcConform"})
+		}
 	}
 	var mu sync.Mutex
 	var wg sync.WaitGroup
